@@ -319,6 +319,17 @@ fn feed_case(rounds: &[Round], now_lag: u8, intervals: &[u16], ctx: &Ctx, out: &
             }
         } else {
             out.count("feed.previous_price_refused");
+            // going back fewer rounds than were submitted must answer (that round exists)
+            if (n as usize) < k {
+                let v = Violation::new(
+                    "feed_previous_price_refused",
+                    format!("GetPreviousPrice{{{}}} is refused although {} rounds were submitted: {:?}", n, k, subs),
+                );
+                if let Some(v) = ctx.filter(out, v) {
+                    out.violation = Some(v);
+                    return;
+                }
+            }
         }
     }
     out.nontrivial = inside >= 1 && subs.len() >= 3;
@@ -347,7 +358,7 @@ impl Property for C18 {
         tier.pick(200_000, 6_000_000)
     }
     fn rule(&self) -> String {
-        "vAMM flavour (3/5 of the cases): generated reserves and block schedules (gaps 0 s .. 1 day, block times with a sub-second fraction) with 0-4 swaps per block through the real entry points; the harness records (block time, block-final spot) for every block with an accepted swap plus the creation entry; after each block TwapPrice{i} is queried for intervals shorter / equal / longer than the history, aligned with and just inside snapshot lifetimes: the answer must lie between the lowest and highest recorded price in effect in [now-i, now] (whole history if shorter), equal spot when the price did not change in the window, and agree (+-1) with the reference time-weighted mean over the block-final prices. Feed flavour: generated round sequences on the real price feed, submitted singly and in AppendMultiplePrice batches (non-decreasing timestamps incl. repeats, not in the future); GetTwapPrice within the bounds of the submissions overlapping the window, GetPrice = last submission, every successful GetPreviousPrice{n}, n = 0..rounds+1, returns exactly the (rounds-n)-th submission. Queries that error or panic give no value and are counted, not judged. Non-trivial: vAMM: a window starting strictly inside a snapshot's lifetime with >= 3 distinct prices in the history and a block with >= 2 swaps; feed: >= 3 submissions and a window overlapping different prices. Distinct by digest of the case.".into()
+        "vAMM flavour (3/5 of the cases): generated reserves and block schedules (gaps 0 s .. 1 day, block times with a sub-second fraction) with 0-4 swaps per block through the real entry points; the harness records (block time, block-final spot) for every block with an accepted swap plus the creation entry; after each block TwapPrice{i} is queried for intervals shorter / equal / longer than the history, aligned with and just inside snapshot lifetimes: the answer must lie between the lowest and highest recorded price in effect in [now-i, now] (whole history if shorter), equal spot when the price did not change in the window, and agree (+-1) with the reference time-weighted mean over the block-final prices. Feed flavour: generated round sequences on the real price feed, submitted singly and in AppendMultiplePrice batches (non-decreasing timestamps incl. repeats, not in the future); GetTwapPrice within the bounds of the submissions overlapping the window, GetPrice = last submission, GetPreviousPrice{n} for n < rounds answers with exactly the (rounds-n)-th submission, and any successful answer for larger n would have to be a submitted round. Queries that error or panic give no value and are counted, not judged. Non-trivial: vAMM: a window starting strictly inside a snapshot's lifetime with >= 3 distinct prices in the history and a block with >= 2 swaps; feed: >= 3 submissions and a window overlapping different prices. Distinct by digest of the case.".into()
     }
     fn assumptions(&self) -> Vec<String> {
         vec!["mock dependencies stand in for the chain; block times strictly increase".into()]
